@@ -163,7 +163,7 @@ CHECKS = {
     },
     "C14": {
         "level": "exploration", "floor": 20,
-        "rule": "every replica records (heads -> state) whenever it is clean; reload_until(H) for a recorded H must show that state, heads == H, objects/winners == the reference model restricted to H's ancestors, and Melda::new_until must agree (half of those replicas then refresh(): they must equal a full load of the same storage); reload() afterwards returns to the latest state; half of the travels of an up-to-date replica first go to an ARBITRARY set of 1-3 applied blocks chosen by content-derived keys (not a head set it ever had; may hold a block and its own ancestor): heads == the maximal chosen blocks, objects / winners / conflict sets == the reference model restricted to their ancestors, new_until agrees, reload() returns to the latest state; "
+        "rule": "every replica records (heads -> state) whenever it is clean; reload_until(H) for a recorded H must show that state, heads == H, objects/winners == the reference model restricted to H's ancestors, and Melda::new_until must agree (half of those replicas then refresh(): they must equal a full load of the same storage, reported against C02); reload() afterwards returns to the latest state; half of the travels of an up-to-date replica first go to an ARBITRARY set of 1-3 applied blocks chosen by content-derived keys (not a head set it ever had, so beyond the quantifier: the call must return without aborting and reload() must come back to the latest state; agreement of the state shown with the reference model restricted to the chosen blocks' ancestors, of the heads with the maximal chosen blocks and of new_until is only counted, c14_beyond_quantifier_disagreements); "
                 "replicas may also stay in the past and commit from there (sometimes redoing verbatim the edit and metadata of an existing child block). Full-mesh histories (3-4 replicas commit concurrently and synchronise all-to-all every round, so blocks have 3-4 parents) revisit every head set of replica 0. After every op 5 random (object, revision) pairs are looked up: value and parent must equal the first recorded ones and the value must hash to the digest in the revision id. non-trivial = >=1 travel and (a multi-head target or >=5 commits)." + DISTINCT,
         "assumptions": ASSUME_COMMON,
         "jobs": [engine("graph", "graph", "C14", (1600, 60000)), engine("general", "general", "C14", (320, 20000)), engine("long", "long", "C14", (48, 1600)), mode("mesh", "c14mesh", (480, 24000)), engine("verylong", "verylong", "C14", (0, 160), tier="thorough")],
